@@ -77,6 +77,27 @@ func ahtEntries(img map[string][]byte) uint64 {
 	return n
 }
 
+// ahtLogsRewound: the payload or digest log of the hash tree was rewound below its flushed size
+// (bytes cut off, or chunk files removed) in the recorded events
+func ahtLogsRewound(evs []Event) bool {
+	for _, e := range evs {
+		if e.Log != "aht/data" && e.Log != "aht/tree" {
+			continue
+		}
+		if len(e.Removed) > 0 {
+			return true
+		}
+		for _, w := range e.Writes {
+			if w.Trunc {
+				return true
+			}
+		}
+	}
+	return false
+}
+
+const tagTreeCut = " [the tree was rewound by recovery (ResetSize): its payload/digest logs were cut on disk while its commit log still lists the dropped entries]"
+
 func annotate(v string, cfg Cfg, img map[string][]byte, final map[string][]byte) string {
 	if cfg.Prealloc && strings.HasPrefix(v, "open fails after the crash") && partialCommitEntry(img, final) {
 		return "PreallocFiles: the last commit-log entry is partially written and taken as committed: " + v
@@ -322,7 +343,7 @@ func runJob(w *Workload, j job, b Budget, rng *rand.Rand, st *Stats, report func
 		if acked2 < j.acked {
 			acked2 = j.acked
 		}
-		pols := []string{"dur", "os", "only:tx", "except:aht", "only:aht", "except:val", fmt.Sprintf("rand:%d", rng.Intn(1<<30))}
+		pols := []string{"dur", "os", "notrunc", "only:tx", "except:aht", "only:aht", "except:val", fmt.Sprintf("rand:%d", rng.Intn(1<<30))}
 		if len(b.OnlyPol2) > 0 {
 			pols = b.OnlyPol2
 		}
@@ -358,6 +379,10 @@ func runJob(w *Workload, j job, b Budget, rng *rand.Rand, st *Stats, report func
 				for _, v := range r3.Viol {
 					if strings.Contains(v, "(the hash tree holds a stale leaf)") && ahtEntries(j.img) > res.Cid0+res.Reloaded {
 						v += " [tree fsynced ahead of the tx log before the first crash, rewound in memory only]"
+					}
+					if strings.Contains(v, "could not open aht: ahtree:") && (strings.Contains(v, "data log is corrupted") || strings.Contains(v, "hash log is corrupted")) &&
+						ahtEntries(j.img) > res.Cid0+res.Reloaded && ahtLogsRewound(evs2[:p]) {
+						v += tagTreeCut
 					}
 					report("after a second crash: "+annotate(v, w.Cfg, img, final2), fmt.Sprintf("%s >> recovery+%d fresh commit(s) >> point2=%d(after %s %s) image2=%s acked<=%d",
 						where, len(res.Fresh), p, evs2[p-1].Kind, evs2[p-1].Log, pol, acked2))
